@@ -262,7 +262,8 @@ Definition filter_index (b : build) (len : Z) (index : num) : out :=
   end.
 
 (* ------------------------------------------------------------------ years and months duration literal (ym_duration.rs)
-   years / months: the decimal values of the captured digit groups (None: group absent); a group that does not fit u64 is skipped.
+   years / months: the decimal values of the captured digit groups (None: group absent); a written group that does not fit u64
+   makes the literal invalid (fix for C14; before it, and at the pinned commit, such a group was skipped).
    Result: YmOk total_months | YmErr (invalid literal -> null) | YmPanic. *)
 Inductive ymres := YmOk (months : Z) | YmErr | YmPanic.
 
@@ -270,23 +271,25 @@ Definition parse_u64 (digits : option Z) : option Z := match digits with Some z 
 
 Definition ym_parse (b : build) (years months : option Z) (negative : bool) : ymres :=
   let step1 : option (Z * bool) :=
-    match parse_u64 years with
-    | Some y => match i64_try_from_u64 y with
+    match years, parse_u64 years with
+    | _, Some y => match i64_try_from_u64 y with
                 | Some y' => match checked_imul y' 12 with
                              | Some m => match checked_iadd 0 m with Some t => Some (t, true) | None => None end
                              | None => None end
                 | None => None end
-    | None => Some (0, false)
+    | Some _, None => None
+    | None, None => Some (0, false)
     end in
   match step1 with
   | None => YmErr
   | Some (t1, v1) =>
     let step2 : option (Z * bool) :=
-      match parse_u64 months with
-      | Some m => match i64_try_from_u64 m with
+      match months, parse_u64 months with
+      | _, Some m => match i64_try_from_u64 m with
                   | Some m' => match checked_iadd t1 m' with Some t => Some (t, true) | None => None end
                   | None => None end
-      | None => Some (t1, v1)
+      | Some _, None => None
+      | None, None => Some (t1, v1)
       end in
     match step2 with
     | None => YmErr
